@@ -69,6 +69,8 @@ where
             self.stored_len
         );
         // SAFETY: index < stored_len guarantees offset + SIZE_OF_T <= data_len
+        #[cfg(anydb_verif)]
+        crate::verif::access("vec_reader:get", &self._reader, HEADER_OFFSET + index * Self::SIZE_OF_T, Self::SIZE_OF_T);
         unsafe { S::read_from_ptr(self.data, index * Self::SIZE_OF_T) }
     }
 
@@ -79,6 +81,8 @@ where
             return None;
         }
         // SAFETY: index < stored_len guarantees offset + SIZE_OF_T <= data_len
+        #[cfg(anydb_verif)]
+        crate::verif::access("vec_reader:try_get", &self._reader, HEADER_OFFSET + index * Self::SIZE_OF_T, Self::SIZE_OF_T);
         Some(unsafe { S::read_from_ptr(self.data, index * Self::SIZE_OF_T) })
     }
 
